@@ -133,6 +133,20 @@ class Sym:
             if sym is not None:
                 return E("cmp", sym, self.tx(e.left, env), self.tx(right, env))
             return self.opaque(e, env)
+        if isinstance(e, ast.BinOp) and type(e.op) in (ast.Add, ast.Sub, ast.Mult, ast.Mod, ast.FloorDiv):
+            sym = {ast.Add: "+", ast.Sub: "-", ast.Mult: "*", ast.Mod: "%", ast.FloorDiv: "//"}[type(e.op)]
+            return E("binop", sym, self.tx(e.left, env), self.tx(e.right, env))
+        if isinstance(e, ast.Call) and isinstance(e.func, ast.Attribute) and e.func.attr == "order" \
+                and not e.args and not e.keywords:
+            return E("order", self.tx(e.func.value, env))          # G.order(): number of vertices of a graph
+        if isinstance(e, ast.Call) and isinstance(e.func, ast.Name) and e.func.id == "make_graph_from_spec" \
+                and not e.keywords and len(e.args) == 2 and isinstance(e.args[0], ast.Constant) \
+                and isinstance(e.args[0].value, str) and isinstance(e.args[1], ast.List) \
+                and not any(isinstance(x, ast.Starred) for x in e.args[1].elts):
+            acc = E("nil")
+            for x in reversed(e.args[1].elts):
+                acc = E("cons", self.tx(x, env), acc)
+            return E("mkgraph", e.args[0].value, acc)
         if isinstance(e, ast.IfExp):
             return E("ite", self.tx(e.test, env), self.tx(e.body, env), self.tx(e.orelse, env))
         if isinstance(e, ast.Starred):
@@ -263,6 +277,30 @@ def dest_of(call):
 KNOWN_KW = {"type", "action", "nargs", "choices", "default", "const", "required", "dest", "help", "metavar"}
 
 
+def local_parsers(setup):
+    """local names bound to a fresh `CLIParser()` (the sub-parsers of compose_two_parsers)"""
+    out = []
+    for st in ast.walk(setup):
+        if isinstance(st, ast.Assign) and len(st.targets) == 1 and isinstance(st.targets[0], ast.Name) \
+                and isinstance(st.value, ast.Call) and isinstance(st.value.func, ast.Name) \
+                and st.value.func.id == "CLIParser" and not st.value.args and not st.value.keywords:
+            out.append(st.targets[0].id)
+    return out
+
+
+def compositions(setup):
+    """local names bound to `compose_two_parsers(p1, p2)` (default test: "the first token is a number")"""
+    out = {}
+    lp = local_parsers(setup)
+    for st in ast.walk(setup):
+        if isinstance(st, ast.Assign) and len(st.targets) == 1 and isinstance(st.targets[0], ast.Name) \
+                and isinstance(st.value, ast.Call) and isinstance(st.value.func, ast.Name) \
+                and st.value.func.id == "compose_two_parsers" and not st.value.keywords \
+                and len(st.value.args) == 2 and all(isinstance(a, ast.Name) and a.id in lp for a in st.value.args):
+            out[st.targets[0].id] = [a.id for a in st.value.args]
+    return out
+
+
 def option_groups(setup, parser_name):
     """local names bound to `<parser>.add_mutually_exclusive_group()` / `.add_argument_group()`"""
     out = {}
@@ -275,8 +313,9 @@ def option_groups(setup, parser_name):
     return out
 
 
-def optspec(call, parser_name, groups=None):
+def optspec(call, parser_name, groups=None, locals_=(), composes=None):
     groups = groups or {}
+    composes = composes or {}
     kws = {k.arg: k.value for k in call.keywords if k.arg}
     flags = [a.value for a in call.args if isinstance(a, ast.Constant) and isinstance(a.value, str)]
 
@@ -301,15 +340,25 @@ def optspec(call, parser_name, groups=None):
     # anything we do not understand about the call makes the option non-standard
     odd = sorted(set(kws) - KNOWN_KW) + (["**"] if any(k.arg is None for k in call.keywords) else []) + \
         (["positional-args"] if len(flags) != len(call.args) else [])
+    group = ""
     if recv in groups:
         if groups[recv] == "add_mutually_exclusive_group":
-            odd.append("mutually_exclusive")
+            group = recv
         recv = parser_name
+    compose = []
+    action = kw("action")
+    if isinstance(kws.get("action"), ast.Name) and kws["action"].id in composes:
+        compose = composes[kws["action"].id]
+        action = "compose_two_parsers"
+    if recv != parser_name and recv not in locals_:
+        odd.append("unknown-parser")
+    sub = "" if recv == parser_name else recv
     return {"dest": dest_of(call), "flags": flags, "positional": not (bool(flags) and flags[0].startswith("-")),
-            "action": kw("action"), "ty": kw("type"), "nargs": kw("nargs"), "choices": choices,
+            "action": action, "ty": kw("type"), "nargs": kw("nargs"), "choices": choices,
             "hasConst": "const" in kws, "const": const_expr(kws.get("const")) or E("none"),
             "hasDefault": "default" in kws, "default": const_expr(kws.get("default")) or E("none"),
-            "required": required, "nested": recv != parser_name, "odd": odd}
+            "required": required, "nested": recv != parser_name, "odd": odd,
+            "parser": sub, "compose": compose, "group": group}
 
 
 def graph_actions(tree):
@@ -356,6 +405,16 @@ def lexpr(e):
         return "(.{} {} {})".format(tag, lexpr(e[1]), lexpr(e[2]))
     if tag == "cmp":
         return "(.cmp {} {} {})".format(lstr(e[1]), lexpr(e[2]), lexpr(e[3]))
+    if tag == "binop":
+        return "(.binop {} {} {})".format(lstr(e[1]), lexpr(e[2]), lexpr(e[3]))
+    if tag == "order":
+        return "(.order {})".format(lexpr(e[1]))
+    if tag == "nil":
+        return ".nil"
+    if tag == "cons":
+        return "(.cons {} {})".format(lexpr(e[1]), lexpr(e[2]))
+    if tag == "mkgraph":
+        return "(.mkgraph {} {})".format(lstr(e[1]), lexpr(e[2]))
     if tag == "ite":
         return "(.ite {} {} {})".format(lexpr(e[1]), lexpr(e[2]), lexpr(e[3]))
     if tag == "opaque":
@@ -380,10 +439,10 @@ def ltemplate(t):
 
 def lopt(o):
     b = lambda x: "true" if x else "false"  # noqa
-    return "⟨{}, {}, {}, {}, {}, {}, {}, {}, {}, {}, {}, {}, {}, {}⟩".format(
+    return "⟨{}, {}, {}, {}, {}, {}, {}, {}, {}, {}, {}, {}, {}, {}, {}, {}, {}⟩".format(
         lstr(o["dest"]), llist(o["flags"]), b(o["positional"]), lstr(o["action"]), lstr(o["ty"]), lstr(o["nargs"]),
         llist(o["choices"]), b(o["hasConst"]), lexpr(o["const"]), b(o["hasDefault"]), lexpr(o["default"]),
-        b(o["required"]), b(o["nested"]), llist(o["odd"]))
+        b(o["required"]), b(o["nested"]), llist(o["odd"]), lstr(o["parser"]), llist(o["compose"]), lstr(o["group"]))
 
 
 DECLS = """
@@ -406,6 +465,11 @@ inductive Expr where
   | cmp (op : String) (a b : Expr)
   | ite (c t e : Expr)
   | star (e : Expr)
+  | binop (op : String) (a b : Expr)          -- integer arithmetic  + - * % //
+  | order (g : Expr)                          -- g.order()
+  | nil                                       -- list literal of a graph specification
+  | cons (h t : Expr)
+  | mkgraph (kind : String) (spec : Expr)     -- make_graph_from_spec(kind, [ … ])
   | opaque (src : String) (deps : List String)
   deriving Repr, DecidableEq
 
@@ -436,6 +500,9 @@ structure OptSpec where
   required : Bool
   nested : Bool
   odd : List String
+  parser : String           -- "" = the sub-command's parser, else the local `CLIParser()` it was added to
+  compose : List String     -- [p1, p2] when the action is `compose_two_parsers(p1, p2)`
+  group : String            -- mutually exclusive group it belongs to ("" = none)
   deriving Repr, DecidableEq
 
 /-- the command-line side of a helper class: its options and the call templates of its method -/
@@ -483,7 +550,20 @@ def emit_snapshot(cli_specs):
     return SNAPSHOT_HEADER + "def documentedSpecs : List CliSpec := [\n" + lspecs(cli_specs) + "\n]\n\nend Cnfgen.Cli\n"
 
 
-def emit(cli_specs, tool_tpls, gactions):
+def graph_constructions(tree):
+    """the `constructions` table of graph_args.py: graph type -> names of the constructions"""
+    for node in tree.body:
+        if isinstance(node, ast.Assign) and len(node.targets) == 1 and isinstance(node.targets[0], ast.Name) \
+                and node.targets[0].id == "constructions" and isinstance(node.value, ast.Dict):
+            out = []
+            for k, v in zip(node.value.keys, node.value.values):
+                if isinstance(k, ast.Constant) and isinstance(v, ast.Dict):
+                    out.append((str(k.value), [str(x.value) for x in v.keys if isinstance(x, ast.Constant)]))
+            return out
+    return []
+
+
+def emit(cli_specs, tool_tpls, gactions, gconstructions=()):
     L = [DECLS]
     L.append("def cliSpecs : List CliSpec := [")
     L.append(lspecs(cli_specs))
@@ -496,4 +576,7 @@ def emit(cli_specs, tool_tpls, gactions):
     L.append("/-- argparse actions of graph_args.py that store `make_graph_from_spec(kind, values)` -/")
     L.append("def graphActions : List (String × String) := {}\n".format(
         llist(gactions, lambda p: "({}, {})".format(lstr(p[0]), lstr(p[1])))))
+    L.append("/-- `constructions` of graph_args.py: the graph constructions of each graph type -/")
+    L.append("def graphConstructions : List (String × List String) := {}\n".format(
+        llist(gconstructions, lambda p: "({}, {})".format(lstr(p[0]), llist(p[1])))))
     return "\n".join(L)
